@@ -2,6 +2,11 @@
 
 package index
 
+import (
+	"fmt"
+	"strings"
+)
+
 // More verification hooks for property C11. Not part of the normal build.
 
 // VerifC11DistanceIter builds a distanceHitIterator over two compressedPostingIterators on raw posting-list
@@ -18,4 +23,28 @@ func VerifC11DistanceIter(blob1, blob2 []byte, distance uint32, limits []uint32)
 		out = append(out, it.first())
 	}
 	return out
+}
+
+// VerifC11TOCTagged is reader.readTOCSections(toc, tags), rendered like VerifC11TOC.
+func VerifC11TOCTagged(f IndexFile, tags []string) (string, error) {
+	r := &reader{r: f}
+	var toc indexTOC
+	if err := r.readTOCSections(&toc, tags); err != nil {
+		return "", err
+	}
+	var parts []string
+	for _, ent := range toc.sectionsTaggedList() {
+		switch s := ent.sec.(type) {
+		case *simpleSection:
+			if ent.tag == "nameBloom" || ent.tag == "contentBloom" || ent.tag == "ranks" {
+				continue
+			}
+			parts = append(parts, fmt.Sprintf("%s=%d+%d", ent.tag, s.off, s.sz))
+		case *compoundSection:
+			parts = append(parts, fmt.Sprintf("%s=%d+%d/%d+%d#%d", ent.tag, s.data.off, s.data.sz, s.index.off, s.index.sz, len(s.offsets)))
+		case *lazyCompoundSection:
+			parts = append(parts, fmt.Sprintf("%s=%d+%d/%d+%d#%d", ent.tag, s.data.off, s.data.sz, s.index.off, s.index.sz, len(s.offsets)))
+		}
+	}
+	return strings.Join(parts, ","), nil
 }
